@@ -48,7 +48,8 @@ META = {
     "assumptions": [
         "per-construct templates (widths <= W, structures enumerated); whole-design equivalence for arbitrary designs and "
         "input sequences is NOT decided -- it is the composition of these lemmas plus net-flow/port inference, which is "
-        "only exercised on the listed hierarchical templates",
+        "only exercised on the listed hierarchical templates and on 12 (quick) / 120 (thorough) hierarchical designs drawn with a "
+        "fixed seed (2-5 modules in a random tree, signals driven from one or -- by halves -- two modules, read anywhere)",
         "memories / instances / I/O buffers at RTLIL level: only C11's parameter lemmas and C18's single-use rule",
     ],
     "bounds": {"quick": {"W": 3}, "thorough": {"W": 5}},
@@ -82,6 +83,7 @@ def tasks(tier):
     chunk = 20
     out = [("chunk", tuple(ts[i:i + chunk])) for i in range(0, len(ts), chunk)]
     out += [("hier", k) for k in range(len(HIER))]
+    out += [("hier-gen", k) for k in range(N_HIER_GEN["quick" if tier == "quick" else "thorough"])]
     out += [("ff", e, kind) for e in ("pos", "neg") for kind in ("noreset", "sync", "async")]
     from . import c04_designs
     out += c04_designs.design_tasks(tier)
@@ -387,6 +389,120 @@ def _hier_designs():
 HIER = [0, 1, 2, 3]
 
 
+class _Lcg:
+    def __init__(self, seed):
+        self.x = seed & 0xFFFFFFFF
+
+    def next(self, n):
+        self.x = (1103515245 * self.x + 12345) & 0x7FFFFFFF
+        return (self.x >> 8) % n
+
+    def pick(self, xs):
+        return xs[self.next(len(xs))]
+
+
+N_HIER_GEN = {"quick": 12, "thorough": 120}
+
+
+def _gen_hier_desc(g):
+    """a hierarchical design drawn with a fixed seed: 2-5 modules in a random tree, 2 inputs, 3-6 derived signals, each wholly
+    combinational (depending on inputs and earlier combinational signals: acyclic) or registered, driven from one module or --
+    by halves -- from two different modules, read anywhere in the tree; optionally under an If/Else"""
+    n_mod = 2 + g.next(4)
+    parent = [None] + [g.next(i) for i in range(1, n_mod)]
+    ins = [(2 + g.next(2), False), (g.pick([1, 2, 3]), g.next(3) == 0)]
+    sigs = []
+    for i in range(3 + g.next(4)):
+        w = 2 + g.next(3)
+        kind = "sync" if g.next(3) == 0 else "comb"
+        split = g.next(3) == 0
+        mods = (g.next(n_mod), g.next(n_mod)) if split else (g.next(n_mod),)
+
+        def operand(allow_later):
+            pool = [("in", 0), ("in", 1)] + [("sig", j) for j in range(len(sigs)) if allow_later or sigs[j][1] == "comb" or True]
+            if not allow_later:
+                pool = [("in", 0), ("in", 1)] + [("sig", j) for j in range(len(sigs))]
+            return g.pick(pool)
+
+        def expr():
+            form = g.next(8)
+            a, b, c = operand(kind == "sync"), operand(kind == "sync"), operand(kind == "sync")
+            return (form, a, b, c)
+        drivers = []
+        for _ in mods:
+            cond = g.next(3) == 0
+            drivers.append((expr(), expr() if cond else None))
+        sigs.append((w, kind, mods, drivers, g.next(7)))
+    return (parent, ins, sigs)
+
+
+def _build_hier(desc):
+    from amaranth.hdl import Signal, Module, Cat, Mux, Shape
+    parent, ins, sigs = desc
+    mods = [Module() for _ in parent]
+    for i, p in enumerate(parent):
+        if p is not None:
+            setattr(mods[p].submodules, f"m{i}", mods[i])
+    inputs = [Signal(Shape(w, s), name=f"in{i}") for i, (w, s) in enumerate(ins)]
+    signals = [Signal(w, name=f"s{i}", init=init & ((1 << w) - 1)) for i, (w, _k, _m, _d, init) in enumerate(sigs)]
+
+    def val(o):
+        return inputs[o[1]] if o[0] == "in" else signals[o[1]]
+
+    def mk(e):
+        form, a, b, c = e
+        a, b, c = val(a), val(b), val(c)
+        return [lambda: a + b, lambda: a ^ b, lambda: ~a, lambda: Cat(a[0], b), lambda: Mux(a[0], b, c), lambda: a[1:], lambda: (a & 3) - 1,
+                lambda: a.as_signed() >> 1][form]()
+    for i, (w, kind, ms, drivers, _init) in enumerate(sigs):
+        halves = [(0, w)] if len(ms) == 1 or ms[0] == ms[1] else [(0, w // 2), (w // 2, w)]
+        for (lo, hi), mi, (e1, e2) in zip(halves, ms, drivers):
+            m = mods[mi]
+            tgt = signals[i][lo:hi]
+            if e2 is None:
+                m.d[kind] += tgt.eq(mk(e1))
+            else:
+                with m.If(inputs[0][0]):
+                    m.d[kind] += tgt.eq(mk(e1))
+                with m.Else():
+                    m.d[kind] += tgt.eq(mk(e2))
+    return mods[0], inputs + signals
+
+
+def _comb_depth(desc):
+    """longest chain of combinational signals feeding one another (the reference evaluates the combinational fixed point by
+    rounds; long chains make its terms too deep for the solver's Python API -- a limit of this harness, so such draws are
+    skipped when the family is generated, before any code under test runs)"""
+    _parent, _ins, sigs = desc
+    depth = {}
+    for i, (_w, kind, _ms, drivers, _init) in enumerate(sigs):
+        if kind != "comb":
+            continue
+        d = 1
+        for e1, e2 in drivers:
+            for e in (e1, e2):
+                if e is None:
+                    continue
+                for o in e[1:]:
+                    if o[0] == "sig" and o[1] in depth:
+                        d = max(d, depth[o[1]] + 1)
+        depth[i] = d
+    return max(depth.values(), default=0)
+
+
+_gh = _Lcg(4092026)
+HIER_GEN = []
+while len(HIER_GEN) < N_HIER_GEN["thorough"]:
+    _d = _gen_hier_desc(_gh)
+    if _comb_depth(_d) <= 2:
+        HIER_GEN.append(_d)
+
+
+def unit_hier_gen(k):
+    m, ports = _build_hier(HIER_GEN[k])
+    return check_module(f"hier-gen{k}", m, ports)
+
+
 def unit_hier(k):
     m, ports = _hier_designs()[k]()
     return check_module(f"hier{k}", m, ports)
@@ -499,6 +615,8 @@ def run_task(task):
         return runner.merge_results(f"chunk[{T.tid(task[1][0])}..]", parts)
     if k == "hier":
         return runner.guarded(f"hier{task[1]}", unit_hier, task[1])
+    if k == "hier-gen":
+        return runner.guarded(f"hier-gen{task[1]}", unit_hier_gen, task[1])
     if k == "ff":
         return unit_ff(task[1], task[2])
     if k == "design":
@@ -532,6 +650,8 @@ def _capture_design(t):
     try:
         if t[0] == "hier":
             unit_hier(t[1])
+        elif t[0] == "hier-gen":
+            unit_hier_gen(t[1])
         else:
             run_one(t)
     finally:
@@ -591,7 +711,7 @@ def find_failing_input(res, ob):
     nm = ob["name"].split("::")[0]
     if not nm.startswith(("design[", "ff(", "canary")):
         try:
-            t = ("hier", int(nm[4:])) if nm.startswith("hier") else _unit_of(ob["name"])
+            t = ("hier-gen", int(nm[8:])) if nm.startswith("hier-gen") else ("hier", int(nm[4:])) if nm.startswith("hier") else _unit_of(ob["name"])
             r = replay_unit(t, ob["model"])
             if r is not None:
                 return r
@@ -612,6 +732,8 @@ def replay(data):
         from . import c04_designs
         names = [d[0] for d in c04_designs.designs("thorough")]
         r = c04_designs.run_design("thorough", names.index(nm[len("design["):-1]))
+    elif nm.startswith("hier-gen"):
+        r = unit_hier_gen(int(nm[8:]))
     elif nm.startswith("hier"):
         r = unit_hier(int(nm[4:]))
     elif nm.startswith("ff("):
